@@ -17,13 +17,25 @@ Nothing in here draws from a PRNG or reads a clock while logging.
 import _imp
 import _thread
 import sys
+import os
 import threading
+import time
 import zlib
 
 _get_ident = _thread.get_ident
 
 # The scheduler currently running (at most one per process).
 ACTIVE = None
+
+
+_exists = os.path.exists
+
+
+def _os_thread_count():
+    try:
+        return len(os.listdir('/proc/self/task'))
+    except OSError:
+        return 0
 
 
 class Deadlock(BaseException):
@@ -134,6 +146,54 @@ def sim_rlock_factory():
     return SimRLock()
 
 
+class _PoolThread:
+    """One OS thread of the persistent pool the simulated tasks run on.
+
+    Task threads are never created or destroyed while runs are in progress: a thread that exits gives its thread state
+    back to malloc at a moment that depends on real time, and the addresses - hence hashes, hence the order of beartype's
+    sets of types and the probe order of its memo tables - of whatever is allocated next would depend on it. Pool threads
+    block on ``job_lock`` between runs; a thread whose task never finishes (deadlock) is simply lost to the pool."""
+
+    def __init__(self):
+        self.job_lock = _thread.allocate_lock()
+        self.job_lock.acquire()
+        self.job = None
+        self.idle = True
+        self.ident = None
+        self.thread = threading.Thread(target=self._loop, name='sim-pool', daemon=True)
+        self.thread.start()
+        while self.ident is None:
+            time.sleep(0.0001)
+
+    def _loop(self):
+        self.ident = _get_ident()
+        while True:
+            self.job_lock.acquire()
+            job, self.job = self.job, None
+            try:
+                job()
+            except BaseException:       # noqa  (jobs catch everything themselves)
+                pass
+            self.idle = True
+
+    def submit(self, job):
+        self.idle = False
+        self.job = job
+        self.job_lock.release()
+
+
+_POOL = []
+
+
+def _pool_take(n):
+    out = [p for p in _POOL if p.idle][:n]
+    while len(out) < n:
+        p = _PoolThread()
+        _POOL.append(p)
+        out.append(p)
+    return out
+
+
 class Task:
     __slots__ = ('tid', 'fn', 'baton', 'state', 'result', 'error', 'thread',
                  'blocked_on', 'prio', 'import_depth')
@@ -230,32 +290,33 @@ class Scheduler:
             for k in range(d):
                 self._pct_points[self.rng.randrange(1, est)] = d - k
         ACTIVE = self
-        old_trace = threading.gettrace() if hasattr(threading, 'gettrace') else None
-        threading.settrace(self._trace_global)
         try:
-            for t in self.tasks:
-                th = threading.Thread(target=self._task_main, args=(t,),
-                                      name='sim-%d' % t.tid, daemon=True)
-                t.thread = th
-                th.start()
-            # Threads are parked on their batons. Register idents.
-            for t in self.tasks:
-                while t.thread.ident is None:
-                    pass
+            # wait until the pool threads of the previous run are back at their job locks (normally they already are)
+            deadline = time.monotonic() + 2.0
+            while any((not p.idle) and getattr(p, 'expected_idle', False) for p in _POOL) and time.monotonic() < deadline:
+                time.sleep(0.0001)
+            pool = _pool_take(len(self.tasks))
+            for t, p in zip(self.tasks, pool):
+                t.thread = p
+                p.expected_idle = False
+                self.by_ident[p.ident] = t
+                p.submit(lambda t=t: self._task_main(t))
             first = self._pick_initial()
             self.current = first
             self.switches.append((0, first.tid, 1))
             first.baton.release()
             self._main_baton.acquire()      # until all done / deadlock
+            for t in self.tasks:
+                if t.state == 'done':
+                    t.thread.expected_idle = True
         finally:
-            threading.settrace(old_trace)
             ACTIVE = None
         return self.tasks
 
     # ----------------------------------------------------------- internals
     def _task_main(self, t):
-        self.by_ident[_get_ident()] = t
         t.baton.acquire()
+        sys.settrace(self._trace_global)
         try:
             t.result = t.fn()
         except Deadlock:
